@@ -12,7 +12,9 @@ def rotl(l, k):
 class BRule:
     """rev | rot | swapif | sumrot | probe:k | counter:k | short"""
 
-    def __init__(self, spec, inplace=False):
+    def __init__(self, spec, inplace=False, nested=None):
+        self.nested = nested        # dict(shape, dtype, b): every few calls the block rule runs a block evolution of its own (same shape)
+        self.depth = 0
         self.inplace = inplace      # a 2-D block rule may update the block it was handed in place and return it
         self.spec = spec
         p = spec.split(":")
@@ -41,7 +43,22 @@ class BRule:
             return blk[:-1]
         raise ValueError(self.spec)
 
+    def reenter(self):
+        import cellpylib as cpl
+        nd = self.nested
+        self.depth += 1
+        try:
+            ca = (np.arange(int(np.prod(nd["shape"]))).reshape((1,) + tuple(nd["shape"])) % 3).astype(nd["dtype"])
+            if len(nd["shape"]) == 1:
+                cpl.evolve_block(ca, block_size=nd["b"], timesteps=3, apply_rule=lambda blk, tt: tuple(blk[::-1]))
+            else:
+                cpl.evolve2d_block(ca, block_size=tuple(nd["b"]), timesteps=3, apply_rule=lambda blk, tt: blk[::-1, ::-1].copy())
+        finally:
+            self.depth -= 1
+
     def __call__(self, n, t):
+        if self.nested and self.depth == 0 and len(self.log) % 3 == 1:
+            self.reenter()
         if isinstance(n, tuple):          # evolve_block hands a tuple of cell states
             blk = [int(x) for x in n]
             self.log.append((blk, int(t)))
